@@ -409,7 +409,7 @@ class GraphSim:
                     so = ch.draw(ns, "so-redraw")
                 if do == -1:
                     do = ch.draw(nd, "do-redraw")
-        if self.hot_bias and g.m.links and not self.in_range:
+        if self.hot_bias and g.m.links:
             val = [x for x in g.m.links if x[1] >= 0 and x[3] >= 0]
             if val and so >= 0 and ch.coin(1, 2, "hot-src"):
                 s, so = ch.pick(val, "hot-src-link")[:2]
@@ -581,6 +581,21 @@ class GraphSim:
             V("nodes", "iteration", {"got": it, "expected": live})
         if len(h) != len(live) or h.num_nodes() != len(live):
             V("nodes", "count", {"len": len(h), "num_nodes": h.num_nodes(), "expected": len(live)})
+        # the other ways to iterate: nodes(), items(), keys(), values() pair every live index with the data lookup gives
+        for name in ("nodes", "items"):
+            try:
+                pairs = [(n.idx, d) for n, d in getattr(h, name)()]
+            except Exception as e:  # noqa: BLE001
+                V("nodes", f"{name}()-raised-{type(e).__name__}", {})
+                continue
+            if sorted(i for i, _ in pairs) != live:
+                V("nodes", f"{name}()-indices", {"got": [i for i, _ in pairs], "expected": live})
+            elif any(d is not h[Node(i)] for i, d in pairs):
+                V("nodes", f"{name}()-pairs-index-with-other-data", {"got": [i for i, d in pairs if d is not h[Node(i)]]})
+        if sorted(n.idx for n in h.keys()) != live or len(list(h.values())) != len(live):
+            V("nodes", "keys()/values()", {})
+        if [c.idx for c in h.children()] != m.nodes[h.root.idx].children:
+            V("hierarchy", "children()-of-the-root-by-default", {"got": [c.idx for c in h.children()]})
         # lookup of live and dead handles
         ctx.checked("lookup")
         for d in list(m.dead) + [max(live + m.dead) + 1]:
@@ -649,6 +664,8 @@ class GraphSim:
             exp = Counter((do, s, so) for (s, so, d, do) in m.links if d == i and do >= 0)
             if got != exp:
                 V("listings", "incoming_links", {"idx": i, "got": sorted(got.elements()), "expected": sorted(exp.elements())})
+            # (num_outgoing / num_incoming are not judged: they count the ports the listings enumerate, linked or not,
+            #  which is neither "links" as their docstrings say nor a query the property lists)
             got = Counter(n.idx for n in h.outgoing_order_links(Node(i)))
             exp = Counter(d for (s, so, d, do) in m.links if s == i and so == -1)
             if got != exp:
